@@ -115,6 +115,48 @@ static uint8_t derived_mask(const std::string& cls, size_t off) {
 static bool derived_byte(const std::string& cls, size_t off) { return derived_mask(cls, off) == 0xff; }
 static bool little_endian_class(const std::string& cls) { return cls.compare(0, 5, "Dot11") == 0 || cls == "RadioTap" || cls == "PPI" || cls == "PKTAP" || cls == "Loopback"; }
 
+
+// ---------------------------------------------------------------- positions assigned by the protocol specifications
+// (class.field, MSB-first global bit index of value bit 0 in the layer's own serialization, little-endian numbering?)
+// BE: value bit i sits at index g0 - i.  LE (802.11 / RadioTap): little-endian bit number of value bit i = le(g0) + i.
+// Sources: RFC 791, 8200, 9293, 768, 792, 826, 3032, 1035, 3550, 7348; IEEE 802.1Q, 802.2 SNAP, 802.11-2012 (8.2.4.1, 11.6.2 EAPOL-Key),
+// 802.1D (STP BPDU), RFC 2516, RFC 4302/4303, LINUX_SLL (tcpdump.org).
+struct SpecPos { const char* key; long g0; bool le; };
+static const SpecPos SPEC_POS[] = {
+    {"IP.version", 3, false}, {"IP.tos", 15, false}, {"IP.id", 47, false}, {"IP.fragment_offset", 63, false}, {"IP.frag_off", 63, false}, {"IP.ttl", 71, false},
+    {"IP.src_addr", 127, false}, {"IP.dst_addr", 159, false},
+    {"IPv6.version", 3, false}, {"IPv6.traffic_class", 11, false}, {"IPv6.flow_label", 31, false}, {"IPv6.hop_limit", 63, false}, {"IPv6.src_addr", 191, false}, {"IPv6.dst_addr", 319, false},
+    {"TCP.sport", 15, false}, {"TCP.dport", 31, false}, {"TCP.seq", 63, false}, {"TCP.ack_seq", 95, false}, {"TCP.flags", 111, false}, {"TCP.window", 127, false}, {"TCP.urg_ptr", 159, false},
+    {"UDP.sport", 15, false}, {"UDP.dport", 31, false},
+    {"ICMP.code", 15, false}, {"ICMP.id", 47, false}, {"ICMP.sequence", 63, false}, {"ICMP.gateway", 63, false}, {"ICMP.mtu", 63, false}, {"ICMP.pointer", 39, false},
+    {"Dot1Q.priority", 2, false}, {"Dot1Q.cfi", 3, false}, {"Dot1Q.id", 15, false},
+    {"MPLS.label", 19, false}, {"MPLS.experimental", 22, false}, {"MPLS.bottom_of_stack", 23, false}, {"MPLS.ttl", 31, false},
+    {"EthernetII.dst_addr", 47, false}, {"EthernetII.src_addr", 95, false}, {"Dot3.dst_addr", 47, false}, {"Dot3.src_addr", 95, false},
+    {"ARP.hw_addr_format", 15, false}, {"ARP.prot_addr_format", 31, false}, {"ARP.hw_addr_length", 39, false}, {"ARP.prot_addr_length", 47, false},
+    {"ARP.sender_hw_addr", 111, false}, {"ARP.sender_ip_addr", 143, false}, {"ARP.target_hw_addr", 191, false}, {"ARP.target_ip_addr", 223, false},
+    {"DNS.id", 15, false}, {"DNS.opcode", 20, false}, {"DNS.authoritative_answer", 21, false}, {"DNS.truncated", 22, false}, {"DNS.recursion_desired", 23, false},
+    {"DNS.recursion_available", 24, false}, {"DNS.z", 25, false}, {"DNS.authenticated_data", 26, false}, {"DNS.checking_disabled", 27, false}, {"DNS.rcode", 31, false},
+    {"EAPOL.version", 7, false}, {"EAPOL.packet_type", 15, false}, {"EAPOL.type", 39, false},
+    {"RSNEAPOL.key_descriptor", 55, false}, {"RSNEAPOL.key_t", 52, false}, {"RSNEAPOL.key_index", 51, false}, {"RSNEAPOL.install", 49, false}, {"RSNEAPOL.key_ack", 48, false},
+    {"RSNEAPOL.key_mic", 47, false}, {"RSNEAPOL.secure", 46, false}, {"RSNEAPOL.error", 45, false}, {"RSNEAPOL.request", 44, false}, {"RSNEAPOL.encrypted", 43, false},
+    {"RSNEAPOL.replay_counter", 135, false},
+    {"RC4EAPOL.replay_counter", 119, false}, {"RC4EAPOL.key_flag", 248, false}, {"RC4EAPOL.key_index", 255, false},
+    {"Dot11.protocol", 7, false}, {"Dot11.type", 5, false}, {"Dot11.subtype", 3, false}, {"Dot11.to_ds", 15, false}, {"Dot11.from_ds", 14, false}, {"Dot11.more_frag", 13, false},
+    {"Dot11.retry", 12, false}, {"Dot11.power_mgmt", 11, false}, {"Dot11.more_data", 10, false}, {"Dot11.wep", 9, false}, {"Dot11.order", 8, false},
+    {"Dot11.duration_id", 23, true}, {"Dot11.addr1", 79, false},
+    {"SNAP.control", 23, false}, {"SNAP.org_code", 47, false},
+    {"SLL.packet_type", 15, false}, {"SLL.lladdr_type", 31, false}, {"SLL.lladdr_len", 47, false}, {"SLL.address", 111, false},
+    {"PPPoE.version", 3, false}, {"PPPoE.type", 7, false}, {"PPPoE.code", 15, false}, {"PPPoE.session_id", 31, false},
+    {"IPSecAH.spi", 63, false}, {"IPSecAH.seq_number", 95, false}, {"IPSecESP.spi", 31, false}, {"IPSecESP.seq_number", 63, false},
+    {"RTP.version", 1, false}, {"RTP.extension_bit", 3, false}, {"RTP.marker_bit", 8, false}, {"RTP.payload_type", 15, false}, {"RTP.sequence_number", 31, false},
+    {"RTP.timestamp", 63, false}, {"RTP.ssrc_id", 95, false},
+    {"STP.proto_id", 15, false}, {"STP.proto_version", 23, false}, {"STP.bpdu_type", 31, false}, {"STP.bpdu_flags", 39, false}, {"STP.root_path_cost", 135, false}, {"STP.port_id", 215, false},
+    {"BootP.opcode", 7, false}, {"BootP.htype", 15, false}, {"BootP.hlen", 23, false}, {"BootP.hops", 31, false}, {"BootP.xid", 63, false}, {"BootP.secs", 79, false}, {"BootP.padding", 95, false},
+    {"BootP.ciaddr", 127, false}, {"BootP.yiaddr", 159, false}, {"BootP.siaddr", 191, false}, {"BootP.giaddr", 223, false},
+    {"LLC.dsap", 7, false}, {"LLC.ssap", 15, false},
+    {0, 0, false}};
+static const SpecPos* spec_pos(const std::string& key) { for (int i = 0; SPEC_POS[i].key; ++i) if (key == SPEC_POS[i].key) return &SPEC_POS[i]; return 0; }
+
 static std::map<std::string, std::string> snapshot(const PDU& p) { std::map<std::string, std::string> m; View v; view_layer(p, v, 0); for (auto& e : v) m[e.key] = e.val; return m; }
 
 static Bytes ser(PDU& p) {
@@ -123,7 +165,8 @@ static Bytes ser(PDU& p) {
 }
 
 struct FieldInfo { std::string cls, name; std::set<long> bits; };
-static std::vector<FieldInfo> g_fields;   // per job: bit sets of the scalar fields of the classes it handled
+static std::vector<FieldInfo> g_fields;
+static std::vector<long> g_last_pos; static bool g_last_pos_ok = false;   // per job: bit sets of the scalar fields of the classes it handled
 
 // priors: 0 default object; 1 every scalar settable field at its maximum sample; 2 alternating bit pattern
 static PDU* apply_prior(PDU* o, int which) {
@@ -259,6 +302,7 @@ template <class V> struct Runner {
                         fi_ok = false;
                     }
                 }
+                if (bl == 0) { g_last_pos = pos; g_last_pos_ok = fi_ok && !derived_field && !std::is_enum<V>::value; }
                 if (bl == 0 && fi_ok && weff > 1 && pos[0] >= 0 && !std::is_enum<V>::value) {
                     bool be = true, le = true;
                     auto le_index = [](long g) { return (g / 8) * 8 + (7 - g % 8); };     // little-endian bit numbering of an MSB-first index
@@ -269,6 +313,18 @@ template <class V> struct Runner {
                     }
                     if (!(be || (le && little_endian_class(cls))))
                         R.violation(std::string("field:bit-order:") + k, std::string("value bits are not laid out contiguously in ") + (little_endian_class(cls) ? "little- or big-endian" : "network (big-endian)") + " order; bit0 at " + std::to_string(pos[0]) + " bit" + std::to_string(w - 1) + " at " + std::to_string(pos[w - 1]), ctx);
+                }
+            }
+            if (pr == 0 && fi_ok && g_last_pos_ok) {
+                if (const SpecPos* sp = spec_pos(k)) {
+                    R.count("fields_checked_against_spec_position");
+                    auto le_index = [](long g) { return (g / 8) * 8 + (7 - g % 8); };
+                    for (int i = 0; i < w; ++i) {
+                        if (g_last_pos[i] < 0) continue;
+                        long want = sp->le ? -1 : sp->g0 - i;
+                        bool ok = sp->le ? (le_index(g_last_pos[i]) == le_index(sp->g0) + i) : (g_last_pos[i] == want);
+                        if (!ok) { R.violation("field:wire-position:" + k, "value bit " + std::to_string(i) + " is serialized at bit index " + std::to_string(g_last_pos[i]) + " (MSB-first, from the start of the layer), the specification puts it at " + (sp->le ? "little-endian offset " + std::to_string(i) + " from index " + std::to_string(sp->g0) : std::to_string(want)), ctx); break; }
+                    }
                 }
             }
             if (pr == 0 && fi_ok) {
